@@ -683,7 +683,7 @@ class FieldsJson(FieldValueBase):
                 for attribute_name, validator_class in cls._get_attr_to_validator_type_dict(attr_fields_dict).items()
                 if validator_class.get_canonical_name() in raw_values
             }), len(parsable)
-        except (TypeError, AttributeError) as e:
+        except (TypeError, AttributeError, ValueError) as e:
             six.raise_from(InvalidValue(six.ensure_text(bytes(parsable), 'ascii', 'replace'), cls, 'value'), e)
 
     def compose(self):
